@@ -509,7 +509,7 @@ def parse_sanitizer_logs(paths_or_text):
 
 
 # ----------------------------------------------------------------------------- tsan driver
-def write_driver_cases(path, rng, count):
+def write_driver_cases(path, rng, count, meta=None):
     lines = []
     n_cases = 0
     for it in range(count):
@@ -530,10 +530,47 @@ def write_driver_cases(path, rng, count):
             lines.append(" ".join(str(int(r)) for r in rows))
             lines.append(" ".join(str(int(c)) for c in c_use))
             lines.append(" ".join("%.17g %.17g" % (z.real, z.imag) for z in A.ravel()))
+            if meta is not None:
+                meta.append({"kind": k, "prec": "f" if it % 5 == 0 and k != "grad" else "d", "A": A, "rows": rows.copy(), "cols": np.asarray(c_use).copy()})
             n_cases += 1
     with open(path, "w") as fh:
         fh.write("%d\n" % n_cases + "\n".join(lines) + "\n")
     return n_cases
+
+
+def driver_case_envelopes(m):
+    """Rounding envelopes (one per output value) of a driver case, see vf/refs/combinatorial.py."""
+    from vf.refs import combinatorial as R
+
+    A, rows, cols = m["A"], m["rows"], m["cols"]
+
+    def env(r, c):
+        if sum(r) != sum(c):
+            return 0.0
+        if sum(r) == 0:
+            return 1.0
+        return float(max(R.perm_multiplicity(A, r, c)[1], R.glynn_envelope(A, r, c)))
+
+    if m["kind"] == "perm":
+        return [env(rows, cols)]
+    if m["kind"] == "laplace":
+        out = []
+        for j in range(len(cols)):
+            c2 = cols.copy()
+            c2[j] -= 1
+            out.append(env(rows, c2) if cols[j] > 0 else 0.0)
+        return out
+    out = []
+    for i in range(len(rows)):
+        for j in range(len(cols)):
+            if rows[i] == 0 or cols[j] == 0:
+                out.append(0.0)
+                continue
+            r2, c2 = rows.copy(), cols.copy()
+            r2[i] -= 1
+            c2[j] -= 1
+            out.append(float(rows[i] * cols[j]) * env(r2, c2))
+    return out
 
 
 def run_tsan(ctx, rng, spec):
